@@ -475,6 +475,9 @@ PIECES = [
     "password=secret", "password: \"s3cr3t\"", "password secret host", "password * rest of line", "passwords=10.1.2.3", "password",
     "password=aa:bb:cc:dd:ee:ff", "password_x --md5 $1$abc", "keyword0", "host1.example.com", "secret", "key", "host", "word=1",
     "example.com", "link", "up", "mtu", "GET /index", "via", "é中", "",
+    # characters str.splitlines() would cut at: in a list element they are ordinary characters of ONE line
+    "head\x0bvia tail", "a\x0csecret", "x\x1cmtu", "y\x1dhost", "z\x1eGET", "n\u0085password=secret", "l\u2028mtu 10.1.2.3",
+    "p\u2029myhost", "c\rvia",
 ]
 PATTERN_SETS = [[], [], [], ["mtu"], ["GET", "via"], ["@"], ["password"]]
 
@@ -856,7 +859,9 @@ def order_violation(case, res):
 
 
 def finding_of(case):
-    """listed finding a failure on this case is an instance of — decided on the INPUT alone (none is listed for C10)"""
+    """listed finding a failure on this case is an instance of — decided on the INPUT alone"""
+    if case["kind"] == "file" and "\r" in case["text"]:
+        return "clean-file-splits-at-cr"
     return None
 
 
@@ -895,6 +900,7 @@ def gen_echo(rng, i):
 
 
 LONG_KEYWORD = "averyveryverylongkeywordvalue_0123456789"
+SEPARATORS = ["\x0b", "\x0c", "\x1c", "\x1d", "\x1e", "\u0085", "\u2028", "\u2029"]
 FILE_PIECES = PIECES + [LONG_KEYWORD, LONG_KEYWORD + "x", "a-very-long-host-name-label.with.many.labels.example.org",
                         "another-quite-long-host-name.example.org", "1.2.3.4", "9.9.9.9", "DROP", "DROP this line", "keep"]
 
@@ -916,6 +922,15 @@ def gen_file(rng, i, long_line=False):
             lines.append("")
         else:
             lines.append("@%d@ %s" % (j, " ".join(rng.choice(FILE_PIECES) for _ in range(rng.choice([1, 2, 3, 4])))))
+    if lines and rng.random() < 0.4:
+        # a character that is NOT a line end for readlines, with something a pattern / allow list / keyword hits behind it
+        cr = rng.random() < 0.25
+        for _ in range(rng.randrange(1, 4)):
+            j = rng.randrange(len(lines))
+            ch = "\r" if cr else rng.choice(SEPARATORS)
+            lines[j] = (lines[j] or "@%d@ blank" % (50 + j)) + ch + rng.choice(["DROP tail", LONG_KEYWORD, "keep", "link 10.1.2.3", "e", "via", ""])
+        if cr and rng.random() < 0.4:
+            lines = [l + "\r" for l in lines]          # a file with CRLF line ends
     if long_line:
         cfg.update({"obfuscate": 0, "hostname": 0, "keywords": ["tailkw", "head"], "patterns": []})
         no, al = ["password"], None
@@ -1017,9 +1032,11 @@ def run(chk):
     # witnesses of the listed findings (corpus files that name one)
     for (fid, _), i in zip(corpus, range(n_corpus)):
         if fid:
-            differ = any(seed_view(cases[i], res[s][i]) != seed_view(cases[i], res[seeds[0]][i]) for s in seeds[1:])
+            differ = any(seed_view(cases[i], res[s][i]) != seed_view(cases[i], res[seeds[0]][i]) for s in seeds[1:]) \
+                or bool(order_violation(cases[i], res[seeds[0]][i]))
             chk.witnesses.append({"finding": fid, "reproduced": differ,
-                                  "answers": sorted(set(js(seed_view(cases[i], res[s][i]).get("stored")) for s in seeds))[:3]})
+                                  "oracle": order_violation(cases[i], res[seeds[0]][i]),
+                                  "answers": sorted(set(js(seed_view(cases[i], res[s][i]))[:300] for s in seeds))[:3]})
             if differ:
                 chk.finding_reproduced(fid)
 
@@ -1047,6 +1064,10 @@ def run(chk):
             chk.count("file:calls=%d" % c["repeats"])
             if len(t0) > MAX_LINE:
                 chk.count("file:line-over-1MiB")
+            if any(ch in t0 for ch in SEPARATORS):
+                chk.count("file:separator-characters-inside-lines")
+            if "\r" in t0:
+                chk.count("file:carriage-return")
         elif c["kind"] == "echo":
             chk.count("echo:substitutes-in-content", sum(1 for l in r0["c2"] if "copied" in l or "seen" in l))
         elif c["kind"] == "glue":
@@ -1071,7 +1092,7 @@ def run(chk):
         for s in seeds:
             v = order_violation(c, res[s][i])
             if v:
-                chk.failure(v, {"case": c, "seeds": [s]})
+                chk.failure(v, {"case": c, "seeds": [s]}, finding=fid)
                 break
         if fid is None:
             tied.append(i)
@@ -1113,6 +1134,9 @@ def replay(data):
             print("  oracle:", v)
             bad = True
     print("model    : %s" % js(model)[:3000])
+    if bad and fid:
+        print("  (listed finding %s)" % fid)
+        bad = False
     if seed_view(case, res[seeds[0]][0]) != seed_view(case, res[seeds[1]][0]):
         print("  oracle: the two seeds disagree" + (" [listed finding %s]" % fid if fid else ""))
         bad = bad or fid is None
